@@ -8,6 +8,7 @@ pub mod render;
 pub mod gen;
 pub mod real;
 pub mod tsparse;
+pub mod cli;
 
 pub use prng::Rng;
 pub use sexp::Sexp;
